@@ -2,6 +2,7 @@ package mon
 
 import (
 	"bufio"
+	"bytes"
 	"context"
 	"encoding/json"
 	"fmt"
@@ -152,6 +153,14 @@ func readResult(path string) *Result {
 	return r
 }
 
+func compact(b []byte) string {
+	var out bytes.Buffer
+	if json.Compact(&out, b) != nil {
+		return string(b)
+	}
+	return out.String()
+}
+
 func tail(path string, n int) string {
 	b, err := os.ReadFile(path)
 	if err != nil {
@@ -241,7 +250,11 @@ func RunParent(p *Prop, tier string, seed int64, verifDir string, workers int) i
 				if oto {
 					continue
 				}
-				if ocode != 0 && (or == nil || !or.Complete) {
+				if ocode == 7 && or != nil && len(or.Violations) > 0 {
+					// the case stalled when run alone; the child reported it
+					confirmed++
+					viols = append(viols, or.Violations...)
+				} else if ocode != 0 && (or == nil || !or.Complete) {
 					confirmed++
 					ol := tail(olog, 4000)
 					d, _ := json.Marshal(D{"what": "process died while executing this case alone", "kind": crashKind(ol),
@@ -331,7 +344,7 @@ func RunParent(p *Prop, tier string, seed int64, verifDir string, workers int) i
 			Sig: v.Sig, Count: v.Count, Detail: v.Detail,
 			Note: "re-execute with: ./check " + p.ID + " --replay " + rp})
 		lines = append(lines, fmt.Sprintf("VIOLATION property=%s replay=%s", p.ID, rp))
-		lines = append(lines, fmt.Sprintf("  sig=%s flavour=%s family=%s case=%d count=%d detail=%.700s", v.Sig, v.Flavour, v.Family, v.Idx, v.Count, string(v.Detail)))
+		lines = append(lines, fmt.Sprintf("  sig=%s flavour=%s family=%s case=%d count=%d detail=%.700s", v.Sig, v.Flavour, v.Family, v.Idx, v.Count, compact(v.Detail)))
 	}
 
 	verdict := "held-on-observed"
@@ -455,7 +468,7 @@ func RunReplay(p *Prop, path string, verifDir string) int {
 		}
 		for _, v := range vs {
 			if !v.Inconclusive {
-				fmt.Printf("VIOLATION property=%s replay=%s\n  sig=%s detail=%.900s\n", p.ID, path, v.Sig, string(v.Detail))
+				fmt.Printf("VIOLATION property=%s replay=%s\n  sig=%s detail=%.900s\n", p.ID, path, v.Sig, compact(v.Detail))
 				return 1
 			}
 		}
